@@ -141,6 +141,10 @@ def run_history(hist, classes=None, decls=None):
 
 
 # ---------------------------------------------------------------- generated enums (real generator)
+# a struct whose fields use the enums plainly and with underlying-type overrides: values must survive read-then-write
+SURVIVAL_FIELDS = [("a", "E1"), ("b", "E1:short"), ("c", "E2"), ("d", "E2:char"), ("e", "E3"), ("f", "WideThree"), ("g", "E1:int"), ("h", "E1")]
+SURVIVAL_WIRE = ["char", "short", "short", "char", "byte", "three", "int", "char"]
+
 GEN_ENUMS = {
     "net": [("E1", None), ("E2", None), ("E3", None), ("PacketAction", None)],
     "pub": [("WideThree", ("three", [("None", 0), ("Mid", 64009), ("Top", 16194276)]))],
@@ -167,6 +171,7 @@ def _generated_setup():
                     members = dict(env.enum_values(name))
                 pyname = {("None_" if k == "None" else k): v for k, v in members.items()}
                 decls[name] = ("eolib.protocol._generated." + genpipe.SUBPKG[d] + "." + genpipe.snake(name), pyname)
+        files.setdefault("pub", []).append(specs.struct("Survivor", [specs.field(n, t) for n, t in SURVIVAL_FIELDS]))
         work = loader.scratch_dir("c14")
         genpipe.write_tree(files, work + "/xml", n_families=2)
         err = genpipe.run_generator(work + "/xml", work + "/out")
@@ -187,6 +192,53 @@ def make_generated_classes():
 def run_generated_history(hist):
     classes, decls = make_generated_classes()
     return run_history(hist, classes, decls)
+
+
+def survival_case(ordinals):
+    """Bytes carrying the given ordinals -> generated deserialize -> generated serialize: same bytes, same ordinals."""
+    from ..refmodels import RefWriter
+
+    classes, _ = make_generated_classes()
+    cls = getattr(loader.gen("eolib.protocol._generated.pub.survivor"), "Survivor")
+    R = loader.lib("eolib.data.eo_reader").EoReader
+    W = loader.lib("eolib.data.eo_writer").EoWriter
+    ref = RefWriter()
+    for wire, n in zip(SURVIVAL_WIRE, ordinals):
+        ref.add_number(wire, n)
+    data = bytes(ref.buf)
+    try:
+        obj = cls.deserialize(R(data))
+        for (name, typ), n in zip(SURVIVAL_FIELDS, ordinals):
+            v = getattr(obj, name)
+            ecls = classes.get(typ.split(":")[0])
+            if int(v) != n or (ecls is not None and not isinstance(v, ecls)):
+                return f"field {name}: {typ} read ordinal {n} from the wire as {v!r}"
+        w = W()
+        cls.serialize(w, obj)
+        out = bytes(w.to_bytearray())
+    except Exception as e:  # noqa: BLE001
+        return f"ordinals {list(ordinals)} (bytes {data.hex()}): read-then-write raised {type(e).__name__}: {e}"
+    if out != data:
+        return f"ordinals {list(ordinals)}: read {data.hex()}, wrote back {out.hex()}"
+    return None
+
+
+def survival_cases():
+    from ..refmodels import LIMITS
+
+    doms = []
+    for wire in SURVIVAL_WIRE:
+        top = LIMITS[wire] - 1
+        doms.append(sorted({0, 1, 2, 5, top, min(top, 300), min(top, 253)}))
+    cases = []
+    for i, dom in enumerate(doms):  # one field at a time over its whole domain, the others at a base value
+        for n in dom:
+            base = [1] * len(doms)
+            base[i] = n
+            cases.append(tuple(base))
+    cases.append(tuple(d[-1] for d in doms))
+    cases.append(tuple(d[0] for d in doms))
+    return list(dict.fromkeys(cases))
 
 
 def generated_menu():
@@ -257,6 +309,12 @@ def run(tier, seed):
             key = "generated-enum:" + w.split(": ", 1)[1].split("(")[0][:30]
             violations.append({"key": key, "what": f"generated enums, history {hist}: {w}", "case": {"history": hist, "generated": True}})
     count += gcount
+    for ords in survival_cases():
+        count += 1
+        w = survival_case(ords)
+        if w:
+            violations.append({"key": "enum-survival:" + w.split(":")[0][:40], "what": w, "case": {"survival": list(ords)}})
+            break
     _, classes = make_classes()
     states = len({class_snapshot(c) for c in classes.values()}) + len(GEN_ENUMS["net"]) + len(GEN_ENUMS["pub"]) + len(GEN_ENUMS["map"])
     coverage = {
@@ -275,7 +333,7 @@ def run(tier, seed):
         "integers), each run on freshly created classes over a freshly reloaded metaclass module, WITHOUT state "
         "deduplication (on a correct tree the product has one state per class - counted under `states` - so histories are "
         "enumerated outright); after each step: M8 oracle, unchanged public snapshot of every class "
-        "(list, reversed, len, __members__, `n in E` for every probe integer, E[name]), declared ordinals still resolve to their members; the same for 7 enums produced by the real generator (underlying byte/char/short/three/int, a member named None), histories of depth <= 2 on freshly imported modules",
+        "(list, reversed, len, __members__, `n in E` for every probe integer, E[name]), declared ordinals still resolve to their members; the same for 7 enums produced by the real generator (underlying byte/char/short/three/int, a member named None), histories of depth <= 2 on freshly imported modules; plus read-then-write survival of declared/unrecognized/top-of-range ordinals through a generated struct whose fields use the enums plainly and with underlying-type overrides",
         "samples": [{"history": [["Dense", 200], ["Sparse", 200], ["Dense", 1]]}],
     }
     return {"coverage": coverage, "violations": violations}
@@ -283,6 +341,8 @@ def run(tier, seed):
 
 def replay(case):
     loader.install_shims()
+    if case.get("survival"):
+        return survival_case([int(x) for x in case["survival"]])
     if case.get("generated"):
         return run_generated_history([(c, int(n)) for c, n in case["history"]])
     return run_history([(c, int(n)) for c, n in case["history"]])
